@@ -219,6 +219,7 @@ class Engine:
     def __init__(self, shared, contract, registry, prefix):
         self.sh = shared
         self.contract = contract
+        self.root_contract = contract
         self.registry = registry
         self.prefix = prefix
         self.trace = []
@@ -435,6 +436,8 @@ class Engine:
             return self.concretise(v.val, model)
         if isinstance(v, VStruct):
             return {"struct": getattr(v.cls, "__name__", str(v.cls)), "fields": {k: self.concretise(x, model) for k, x in v.fields.items()}}
+        if isinstance(v, VMap):
+            return {"dict": {str(k): self.concretise(x, model) for k, x in v.d.items()}}
         if isinstance(v, VList):
             st = self.lists0.get(v.loc) if hasattr(self, "lists0") and not isinstance(v.loc, tuple) else None
             if st is None:
@@ -594,6 +597,8 @@ class Engine:
             self.lists[loc] = ["sym", n, arrs, T_.elem]
             self.assume_list_wf(self.lists[loc])
             return VList(loc)
+        if isinstance(T_, TDict):
+            return VMap({k: self.fresh(ft, "%s[%s]" % (name, k)) for k, ft in T_.fields.items()})
         if isinstance(T_, (TObj, TMap)):
             t = z3.Int(self.fresh_name(name))
             self.assume(z3.And(t >= 1, t < self.alloc_term()))
@@ -2196,6 +2201,12 @@ class Engine:
         if ia is not None and ib is not None:
             if ia.np != ib.np:
                 if conc_bool(c) is None:
+                    if getattr(self.contract, "mixed_int_merge", False) or self.in_clause:
+                        # value-only merge: the result is treated as a mathematical int (declared per contract: the merged value is
+                        # only stored / compared afterwards, never used in fixed-width arithmetic)
+                        self.sh.assumed = getattr(self.sh, "assumed", set())
+                        self.sh.assumed.add("min/max/conditional over a python int and a numpy int yields a value used only as a number (no further fixed-width arithmetic)")
+                        return VInt(z3.If(c, ia.t, ib.t), None)
                     raise Unsupported("conditional expression mixes numpy/python int kinds")
             if (ia.bv is not None or ib.bv is not None) and ia.np is None and ib.np is None:
                 A, B = self.bv_of(ia), self.bv_of(ib)
